@@ -79,6 +79,7 @@ class PacketzQueue(JSONBase):
         q = self.path.open(
             "rt",
             encoding="utf-8",
+            errors="replace",  # a read may see the file cut inside a multi-byte character
             buffering=1024 * 256,
         )
         assert self._queue_healthy(q)
